@@ -323,8 +323,38 @@ def multi_part(draw, max_parts=5):
     return {'fn': fn, 'content': enc_content(list(parts)), 'kw': kw}
 
 
+ENC_ALPHABETS = {
+    'cp437': 'abcéäöüÇ░▒▓│┤αßΓπ±', 'iso-8859-2': 'abcĄąŁłŚśŽž', 'iso-8859-5': 'abcЖжИиЯя', 'iso-8859-7': 'abcαβγδΩ',
+    'iso-8859-15': 'abc€ŠšŽžŒœ', 'shift_jis': 'abcｱｲｳ点漢字', 'cp1250': 'abc€„…ŚŤŽ', 'cp1251': 'abcЂЃ‚ѓжЯ', 'cp1252': 'abc€‚ƒ„…†‡',
+    'cp1256': 'abc€پچژگ', 'utf-16-be': 'abcä€点😀', 'utf-8': 'abcä€点😀', 'ascii': 'abcXYZ~ ', 'big5': 'abc一乙丁七',
+    'gb18030': 'abc书读百遍€', 'gbk': 'abc书读百遍', 'euc_kr': 'abc한글가나', 'iso-8859-1': 'abcäöüÿ', 'gb2312': 'abc书读',
+    'utf-16': 'abcä', 'koi8-r': 'abcжя', 'utf-32-be': 'abä', 'iso-8859-9': 'abcĞğİış', 'iso-8859-16': 'abcȘșȚț€',
+}
+
+
+@st.composite
+def eci_case(draw):
+    """Byte-mode text in a non-default encoding with eci drawn (mostly True), QR symbols."""
+    enc = draw(st.sampled_from(sorted(ENC_ALPHABETS)))
+    text = draw(st.text(alphabet=ENC_ALPHABETS[enc], min_size=1, max_size=30))
+    kw = {'encoding': enc if draw(st.integers(0, 3)) else enc.upper(), 'eci': draw(st.integers(0, 4)) > 0}
+    fn = draw(st.sampled_from(['make', 'make', 'make_qr']))
+    if fn == 'make':
+        has, val = opt(draw, st.sampled_from([None, False]), 0.5)
+        if has:
+            kw['micro'] = val
+    for name, strat, p in (('error', st.sampled_from(['L', 'M', 'Q', 'H']), 0.3),
+                           ('version', st.sampled_from([1, 2, 3, 5, 9, 10, 11, 27]), 0.3),
+                           ('mask', st.integers(0, 7), 0.5), ('boost_error', st.booleans(), 0.3),
+                           ('mode', st.sampled_from(['byte', None]), 0.3)):
+        has, val = opt(draw, strat, p)
+        if has:
+            kw[name] = val
+    return {'fn': fn, 'content': enc_content(text), 'kw': kw}
+
+
 def make_cases(big=0.06, multi=True):
-    opts = [constructive_single(big=big)] * 6 + [free_single()] * 3
+    opts = [constructive_single(big=big)] * 6 + [free_single()] * 3 + [eci_case()]
     if multi:
         opts += [multi_part()] * 2
     return st.one_of(*opts)
